@@ -381,11 +381,11 @@ def main(argv=None):
     for path, v in vlines:
         print("  violation %s: %s" % (v["signature"], v["text"][:300]))
         print("VIOLATION property=%s replay=%s" % (prop, path))
+    for e in errors:
+        print("harness error: " + e)
     if vlines:
         return 1
     if errors:
-        for e in errors:
-            print("harness error: " + e)
         return 2
     return 0
 
